@@ -102,3 +102,22 @@ Definition contributes (raw : str) (c : list item) : Prop :=
            c = [(if is_nil rest then value else dump_options_header value rest, q)])
         /\ ((forall q, q_literal (strip uni_ws qs) q -> ~ q_in_range q) -> c = [])
     end.
+
+(* ---------------------------------------------------------------- headers built from items (C17_accept_roundtrip) *)
+(* a range as it is normally written: letters, digits and  * / - _ . +  (no parameters) *)
+Definition plain_char (c : N) : bool :=
+  is_alpha c || is_digit c || (c =? STAR) || (c =? SLASH) || (c =? MINUS) || (c =? USCORE) || (c =? DOT) || (c =? 43).
+Definition plain_value (v : str) : bool := nonempty v && forallb plain_char v.
+(* q is 1, or n / 10^k with at least one fraction digit and 0 <= n < 10^k (any number of decimals) *)
+Definition wf_q (q : Qd) : Prop := q = one \/ (1 <= snd q /\ (0 <= fst q < pow10 (snd q))%Z).
+Definition plain_item (it : item) : Prop := plain_value (fst it) = true /\ wf_q (snd it).
+
+(* ---------------------------------------------------------------- the float contract (C17_float_contract) *)
+(* a q literal of at most 15 significant digits and at most 300 fraction digits *)
+Definition sig15 (q : Qd) : bool := (Z.abs (fst q) <? 10 ^ 15)%Z && (snd q <=? 300).
+
+(* ---------------------------------------------------------------- str(accept) (C17_to_header_roundtrip) *)
+(* the quality as to_header writes it: 1 stays 1, anything else in the shortest form with at least
+   one fraction digit *)
+Definition norm_q (q : Qd) : Qd := if qeqb q (q_of_Z 1%Z) then one else q_normalize q.
+Definition norm_item (it : item) : item := (fst it, norm_q (snd it)).
